@@ -39,9 +39,10 @@ def main():
             rc, o = sh(f"git apply --whitespace=nowarn {os.path.join(d, 'patch.diff')}", cwd=S)
             out["patch_applies"] = rc == 0
             if rc != 0:
-                rc, o = sh(f"git apply --3way --whitespace=nowarn {os.path.join(d, 'patch.diff')}", cwd=S)
+                # context drifted through later fixes: let patch(1) place the hunks (offsets, fuzz 3)
+                rc, o = sh(f"patch -p1 -F3 --no-backup-if-mismatch < {os.path.join(d, 'patch.diff')}", cwd=S)
                 out["patch_applies"] = rc == 0
-                out["apply_note"] = o[-300:]
+                out["apply_note"] = ("applied with patch -F3: " if rc == 0 else "") + o[-300:]
             if out["patch_applies"]:
                 for p in props:
                     rc, o = sh(f"./check {p} --tier quick", cwd=ROOT, env=dict(os.environ, VERIF_REPO=S))
